@@ -204,7 +204,7 @@ def gen_cases(tier, rng):
     quick = tier == "quick"
     fracs = FRACS_Q if quick else FRACS_T
     dimsA = [1, 2, 3, 5] if quick else [1, 2, 3, 4, 5, 7]
-    vshapes = list(grid_shapes([1, 2], dimsA)) + (rng.sample(list(grid_shapes([3], dimsA)), 24) if quick else list(grid_shapes([3], dimsA))) + [capped_shape(rng, o, [1, 2, 3, 4, 6, 9], 4000) for o in (4, 4, 5, 5, 6) for _ in range(3 if quick else 20)]
+    vshapes = list(grid_shapes([1, 2], dimsA)) + rng.sample(list(grid_shapes([3], dimsA)), 24 if quick else 90) + [capped_shape(rng, o, [1, 2, 3, 4, 6, 9], 4000) for o in (4, 4, 5, 5, 6) for _ in range(3 if quick else 10)]
     # ---- validators
     for s in vshapes:
         n = len(s)
@@ -233,7 +233,7 @@ def gen_cases(tier, rng):
                 yield dict(kind="VTtm", shape=s, spec=f, kw={})
     # ---- decompositions
     dshapes = list(grid_shapes([2, 3], [1, 2, 3] if quick else [1, 2, 3, 4])) + \
-        [tuple(rng.choice([1, 2, 3, 4]) for _ in range(o)) for o in (4, 4, 4, 5) for _ in range(4 if quick else 25)]
+        [tuple(rng.choice([1, 2, 3, 4]) for _ in range(o)) for o in (4, 4, 4, 5) for _ in range(4 if quick else 12)]
     for s in dshapes:
         n = len(s)
         ints = [1, 2, 5] if quick else [1, 2, 3, 5, 9]
@@ -478,6 +478,23 @@ def pred_structure(case, shapes, out):
             req = trm.validate_tr_rank(tuple(s), list(spec) if isinstance(spec, tuple) else spec)
             if got != list(req):
                 return f"TR-ALS ranks {got}, requested {list(req)}", "C08_trals_ranks"
+    if kind == "DTtm":
+        fs = out.factors
+        n = len(s) // 2
+        if len(fs) != n:
+            return f"{n} input/output pairs but {len(fs)} cores", "C08_core_count"
+        for k, f in enumerate(fs):
+            if f.ndim != 4 or f.shape[1] != s[k] or f.shape[2] != s[n + k]:
+                return f"TT-matrix core {k} has shape {f.shape}, expected (r, {s[k]}, {s[n + k]}, r')", "C08_mode_sizes"
+            if k + 1 < n and f.shape[3] != fs[k + 1].shape[0]:
+                return f"ranks of TT-matrix cores {k},{k + 1} do not chain", "C08_rank_chain"
+        if fs[0].shape[0] != 1 or fs[-1].shape[3] != 1:
+            return "TT-matrix boundary ranks are not 1", "C08_tt_boundary"
+    if kind == "DCmtf":
+        t, mp, _ = out
+        if t.factors[0].shape[0] != mp.factors[0].shape[0] or t.weights.shape != mp.weights.shape or \
+                any(f.shape[1] != t.weights.shape[0] for f in list(t.factors) + list(mp.factors)):
+            return "CMTF: tensor part and matrix part do not share the rank / first mode", "C08_cmtf_shapes"
     if kind == "DTucker":
         core, factors = out
         X = data_tensor(s, case["seed"])
@@ -641,6 +658,51 @@ def pred_norm(nc, res):
     return None
 
 
+def cp_normalize_cases(tier, rng):
+    """direct calls of cp_tensor.cp_normalize: weights None / ones / generic / with zeros and negatives, zero columns, orders 1-4"""
+    n = 40 if tier == "quick" else 400
+    for k in range(n):
+        order = rng.choice([1, 2, 3, 3, 4])
+        shape = tuple(rng.choice([1, 2, 3, 5]) for _ in range(order))
+        R = rng.choice([1, 2, 3])
+        yield dict(shape=shape, rank=R, seed=rng.randrange(10 ** 6), weights=rng.choice(["none", "ones", "generic", "signed"]),
+                   zero_col=rng.choice([None, None, (rng.randrange(order), rng.randrange(R))]), integer=rng.random() < 0.3)
+
+
+def run_cp_normalize_case(cc):
+    from tensorly.cp_tensor import cp_normalize, CPTensor
+    r = np.random.RandomState(cc["seed"])
+    fs = [(r.randint(-3, 4, size=(d, cc["rank"])).astype(float) if cc["integer"] else r.standard_normal((d, cc["rank"]))) for d in cc["shape"]]
+    if cc["zero_col"] is not None:
+        k, c = cc["zero_col"]
+        fs[k][:, c] = 0.0
+    w = {"none": None, "ones": np.ones(cc["rank"]), "generic": r.random_sample(cc["rank"]) + 0.5,
+         "signed": r.standard_normal(cc["rank"]) * (r.random_sample(cc["rank"]) < 0.8)}[cc["weights"]]
+    before = cp_full(np.ones(cc["rank"]) if w is None else w, fs)
+    st, out = C.call_impl(cp_normalize, CPTensor((None if w is None else w.copy(), [f.copy() for f in fs])), timeout=60)
+    return st, out, before
+
+
+def pred_cp_normalize(cc, st, out, before):
+    """transcription of C08_cp_normalize_{unit_columns, weights_nonneg, represents, shapes}"""
+    if st != "ok":
+        return f"raised: {out}", "C08_cp_normalize_runs"
+    w, fs = out
+    if [f.shape for f in fs] != [(d, cc["rank"]) for d in cc["shape"]] or np.shape(w) != (cc["rank"],):
+        return f"shapes changed: {[f.shape for f in fs]}", "C08_cp_normalize_shapes"
+    for k, f in enumerate(fs):
+        for c, v in enumerate(np.linalg.norm(f, axis=0)):
+            if abs(v - 1) > 1e-12 and not (v == 0 and w[c] == 0):
+                return f"column {c} of factor {k} has norm {v!r} (weight {w[c]!r})", "C08_cp_normalize_unit_columns"
+    if np.any(w < 0):
+        return f"negative weight {w.tolist()}", "C08_cp_normalize_weights_nonneg"
+    after = cp_full(w, fs)
+    e = float(np.max(np.abs(after - before))) / max(1.0, float(np.max(np.abs(before))))
+    if e > 1e-12:
+        return f"the normalised CP tensor represents another tensor (residual {e:.2e}): scale not carried by the weights", "C08_cp_normalize_represents"
+    return None
+
+
 def norm_decisions(nc, res):
     """the decision sequence of this run (answer tape for the model) and whether the number of sweeps is observable"""
     n, tol, cb = nc["n_iter_max"], nc["tol"], nc.get("cb_stop")
@@ -684,6 +746,8 @@ def norm_cases(tier, rng):
     for fn in CPFUNS:
         for s in shapes:
             for R in ((2,) if quick else (1, 2, 3)):
+                if len(s) == 2 and R > min(s):
+                    continue        # a matrix factorisation with more components than rows: singular Gram matrices by construction
                 for init in ("random", "svd", "user"):
                     for nf in (True, False):
                         for tol in (1e10, 0, 1e-3):       # huge: stops by convergence at iteration 1 ; 0: runs to the cap ; 1e-3: data dependent
@@ -818,6 +882,9 @@ def _run(chk, rng):
         if res["st"] != "ok" and str(res["out"]) == "timeout":
             timeouts += 1
             continue
+        if res["st"] != "ok" and str(res["out"]).startswith("LinAlgError"):
+            skipped += 1          # singular normal equations (data / rank dependent): ill-conditioned, not a verdict
+            continue
         n_norm += 1
         exit_kind = ("all_fixed" if _all_fixed(nc) else "callback" if res["cb_fired"] else "cap0" if nc["n_iter_max"] == 0 else
                      "convergence" if (res["errors"] is not None and nc["tol"] and len(res["errors"]) < nc["n_iter_max"]) else "cap")
@@ -836,6 +903,19 @@ def _run(chk, rng):
             out = res["out"]
             chk.finding(f"tensorly.decomposition.{nc['fn']}", inputs, msg, pred,
                         observed=None if res["st"] != "ok" else {"weights": out.weights, "column_norms": [np.linalg.norm(f, axis=0) for f in out.factors]})
+    # ---- cp_normalize itself
+    for cc in cp_normalize_cases(tier, rng):
+        st, out, before = run_cp_normalize_case(cc)
+        if st != "ok" and str(out) == "timeout":
+            timeouts += 1
+            continue
+        chk.count(key=("cp_normalize", cc["shape"], cc["rank"], cc["weights"], cc["zero_col"] is not None), nontrivial=prod(cc["shape"]) * cc["rank"] > 1)
+        chk.hist("entry_point", "cp_normalize")
+        r = pred_cp_normalize(cc, st, out, before)
+        if r:
+            msg, pred = r
+            chk.finding("tensorly.cp_tensor.cp_normalize", {k: (list(v) if isinstance(v, tuple) else v) for k, v in cc.items()}, msg, pred,
+                        observed=None if st != "ok" else {"weights": out[0], "column_norms": [np.linalg.norm(f, axis=0) for f in out[1]]})
     t_impl = time.time()
     chk.notes.append(f"implementation runs + predicates: {t_impl - t_start:.1f}s wall, {time.process_time() - c_start:.1f}s cpu")
     failing, n_eval, broken = C.run_case_shards("C08", HEADER, "case", cases, shard=300, timeout=900)
@@ -895,7 +975,10 @@ def replay(payload):
         return 1
     C.reset_backends()
     inp = payload["inputs"]
-    if "fn" in inp and "normalize_factors" in inp:
+    if "zero_col" in inp and "weights" in inp:
+        cc = dict(inp); cc["shape"] = tuple(cc["shape"]); cc["zero_col"] = tuple(cc["zero_col"]) if cc["zero_col"] is not None else None
+        r = pred_cp_normalize(cc, *run_cp_normalize_case(cc))
+    elif "fn" in inp and "normalize_factors" in inp:
         nc = dict(inp); nc["shape"] = tuple(nc["shape"]); nc.pop("cb_fired", None)
         res = run_norm_case(nc)
         r = pred_norm(nc, res)
